@@ -48,11 +48,11 @@ def audit(event, args):
 
 
 builtins.eval = guarded_eval
-ministring.eval = guarded_eval if hasattr(ministring, 'eval') else None
 sys.addaudithook(audit)
 
 PAYLOAD = "__import__('canary_module_that_does_not_exist')"
-PIECES = ["'", '"', "'''", '"""', '\\', '\\\\', '\n', '\r', '\0', '{', '}', '+', ' ', PAYLOAD, "''''", '""""', "\\'", '\\"', '#', ')', '(', 'a',
+PIECES = ["'", '"', "''", '""', "'''", '"""', '\\', '\\\\', '\n', '\r', '\0', '{', '}', '+', ' ', PAYLOAD, "''''", '""""', "\\'", '\\"', '#', ')', '(', 'a',
+          '+' + PAYLOAD + '#', ')+' + PAYLOAD + '#', '+' + PAYLOAD + '+', '\n' + PAYLOAD + '\n',
           '\N{BULLET}', '\ud800', '\x7f', '\\N{BULLET}', '\\x', '\\u', "'+" + PAYLOAD + "+'", '"+' + PAYLOAD + '+"',
           "'''+" + PAYLOAD + "+'''", '"""+' + PAYLOAD + '+"""']
 
